@@ -217,13 +217,52 @@ func (e *Engine) enterLoopHeader(st *State, fr *Frame, h *ssa.BasicBlock, ord in
 		}
 		st.cells[id] = st.freshVal(t, n)
 	}
-	if heapW {
-		// havoc the contents of every object allocated in this call; pre-existing memory is protected by frame obligations
-		for k := 1; k <= st.nalloc; k++ {
-			ref := Add(alloc0, BVu(uint64(k), 64))
+	_ = heapW
+	fx := e.loopEffectsOf(fr.fn, h)
+	// havoc what the loop may write in objects allocated by this call (pre-existing memory is protected by the
+	// frame obligations raised at every store): precise per heap family, one fresh value per allocated object
+	for k := 1; k <= st.nalloc; k++ {
+		ref := Add(alloc0, BVu(uint64(k), 64))
+		if fx.bytes || fx.all {
 			st.setArr(ref, SymSort(fresh("hv_arr"), byteArrSort))
 			delete(st.text, ref.String())
 		}
+	}
+	for name, harr := range st.heap {
+		if name == "Bytes" {
+			continue
+		}
+		hit := fx.all
+		for f := range fx.families {
+			if strings.HasPrefix(name, f) {
+				hit = true
+			}
+		}
+		if !hit {
+			continue
+		}
+		cur := harr
+		inner := innerSortOf(cur.Sort)
+		for k := 1; k <= st.nalloc; k++ {
+			ref := Add(alloc0, BVu(uint64(k), 64))
+			var v *Term
+			switch {
+			case inner == "Bool":
+				v = Sym(fresh("hv"), 0)
+			case strings.HasPrefix(inner, "(_ BitVec "):
+				w := 0
+				fmt.Sscanf(inner, "(_ BitVec %d)", &w)
+				v = Sym(fresh("hv"), w)
+			case inner == "Ref" || inner == "I64":
+				v = Sym(fresh("hv"), 64)
+			default:
+				v = SymSort(fresh("hv_elems"), inner)
+			}
+			nh := Store(cur, ref, v)
+			nh.Sort = harr.Sort
+			cur = nh
+		}
+		st.heap[name] = cur
 	}
 	for n, id := range st.globals {
 		// ghost variables are advanced by hooks inside the loop
